@@ -374,7 +374,7 @@ pub fn prop(which: Which, tier: Tier) -> Prop {
     Which::C11 => ("C11", "resolved export-name sets (own names, star re-exports, default) of the emitted entrypoints equal the originals' and are subsets for other modules; each retained exported declaration keeps its kind; every written parameter / return / property type annotation, type-parameter list, heritage clause, interface / type / enum text is carried over (modulo `| undefined` for optional parameters); declarations the generator marks as neither exported nor referenced are absent"),
   };
   let (slots, modes) = match tier {
-    Tier::Quick => (3, vec![Mode::Deviations(1), Mode::Deviations(2)]),
+    Tier::Quick => (3, vec![Mode::Deviations(1), Mode::Deviations(2), Mode::Deviations(3)]),
     Tier::Thorough => (3, vec![Mode::Deviations(2), Mode::Deviations(3), Mode::Deviations(4)]),
   };
   Prop {
